@@ -32,6 +32,9 @@ class Dur:
     def __int__(self):
         return int(self.ms // 1000)
 
+    def __symint__(self):
+        return self.ms // 1000
+
     def __add__(self, o):
         if isinstance(o, T):
             return T(o.ms + self.ms)
